@@ -79,6 +79,10 @@ TREE = {
     "fallback.py": "y = ('fallback', 1)\nw = ('fallback', 2)\nz = ('fallback', 3)\nv = ('fallback', 4)\n",
     "counter_src.py": "count = 1\n",
     "counter.py": "from counter_src import count\ncount += 1\n",
+    # a module that re-exports through a relative import, next to a top-level module of the same name; a module whose star import provides a stdlib-looking name
+    "relpkg/viarel.py": "from .inner import value\n",
+    "inner.py": "def value(x):\n    return ('top-level inner.value', x)\n",
+    "stamps.py": "from datetime import datetime\nepoch = 0\n",
 }
 CLIENTS = {
     "star_two": "from legacy import *\nfrom modern import *\nprint(parse(1), load(2))\n",
@@ -105,6 +109,9 @@ CLIENTS = {
     "relpkg": "from relpkg import exported, value\nprint(exported(1), value(2))\n",
     "all_spellings": "from fallback import *\nfrom alls import *\nprint(y, w, z, v)\n",
     "augmented": "from counter import count\nprint(count)\n",
+    "relative_reexport": "from relpkg.viarel import value\nprint(value(1))\n",
+    "stdlib_dotted_star": "from os import *\nfrom os.path import *\nprint(getcwd() != '', join('a', 'b'))\n",
+    "star_hides_missing": "from stamps import *\nprint(datetime(2020, 1, 2).year, epoch)\n",
     "alias_of_alias": "from compat import load as ld\nfrom swap import parse as ps\nprint(ld(1), ps(2))\n",
     "toplevel_then_local": "import legacy\n\n\ndef f():\n    import legacy as lg\n    from legacy import load as ld\n    return lg.parse(1), ld(2), legacy.load(3)\n\n\nprint(f())\n",
 }
